@@ -66,3 +66,7 @@ CLAIMS["C16"] = ("exploration",
 CLAIMS["C17"] = ("exploration",
     "Hypothesis-generated lists of 1-6 input documents from the universal strategy (tables, multi-section, figures; different geometries, page headers/footers, colours, the dictionary word 'fcharset', the same path twice) plus the empty list, a missing path at any position and a pre-existing output; oracle: C01's well-formedness predicate on the combined file, page-list concatenation compared through the independent reader, per-input geometry, byte identity for a single input, and the FileNotFoundError / no-write contract. " + _EXPL,
     _READER, "property-based testing: generated input lists, concatenation oracle on independently parsed pages")
+CLAIMS["C18"] = ("fault_enumeration",
+    "The harness owns the fault point: an exception is raised on entry of the k-th call into any rtflite function during an export (sys.settrace). Quick enumerates every distinct call site at its first, middle and last instance for 4 exports x 4 documents; thorough enumerates EVERY call instance for two documents; converter stub behaviours x target states x target names are enumerated exhaustively and Hypothesis draws further combinations. Oracle = file-system snapshot invariants (target bytes, directory listing, private TMPDIR) before/after and equality of the written file with the string the same rtf_encode() call returned. Holds on every fault point explored; faults inside polars / pydantic / the OS are out of reach.",
+    "Fault granularity = rtflite function-call boundaries; LibreOffice replaced by a stub converter object; newly created parent directories are not debris.",
+    "fault injection at enumerated call boundaries (harness-owned), file-system invariant oracle; Hypothesis for the remaining dimensions")
